@@ -336,6 +336,17 @@ void dispatchArgs(GenState &gs, Node *c) {
     return;
   }
 
+  // every parameter needs a register of its own: a repeated name would be
+  // counted as an argument but share one register, and calls would write
+  // their arguments outside the callee's frame
+  for (const VReg &r : gs.getSymbols().register_state) {
+    if (r.name == c->tok) {
+      gs.verr(CodegenResult::Error::Type::PARSE_ERROR,
+              "duplicate parameter name '" + c->tok + "'", c->file, c->line);
+      return;
+    }
+  }
+
   gs.getSymbols().argnum++;
   gs.getSymbols().fetchVariableRegister(std::string(c->tok));
 }
